@@ -648,6 +648,19 @@ func minMaxRules(c *Ctx) {
 	texts := map[string]map[string]string{"min": {}, "max": {}}
 	for _, p := range []string{"min", "max"} {
 		dir := map[string]int{"min": -1, "max": 1}[p]
+		// the form rule is about what the *path* established, not about the text: a path that reaches the two-value form
+		// through mere assignability prints the same text as the path through identity, so it must be looked at although
+		// its text repeats
+		for _, r := range c.R.Runs(p) {
+			if r.Outcome != "accepted" || !r.Dup {
+				continue
+			}
+			rs := parseResid(r)
+			if rs.Err != nil || len(rs.Funcs) != 1 {
+				continue
+			}
+			reportIssues(c, rs, "R8", "", minMaxFormIssues(rs, rs.Funcs[0]))
+		}
 		for _, rs := range c.acceptedResids(p) {
 			if rs.Err != nil || len(rs.Funcs) != 1 {
 				continue
